@@ -410,6 +410,8 @@ func runC13(p *core.Program, r *core.Report) {
 
 	r.Floor("R13.1", 25)
 	r.Floor("R13.2", 19)
+	recorderRules(p, r, "", "R13.5")
+	r.Floor("R13.5", 4)
 	r.Floor("R13.7", 19)
 	// R13.8 (= C12 R12.3): every location a token, node or error carries comes from the lexer's
 	// position fields, which must move in lock-step with the byte offset, one rune at a time
@@ -458,6 +460,8 @@ func stripAmp(e ast.Expr) ast.Expr {
 
 func c13Controls() []core.Mutant {
 	return []core.Mutant{
+		{Name: "checker returns its error unbound", File: "checker/checker.go", Old: "return t, v.err.Bind(tree.Source)", New: "return t, v.err", Rule: "R13.5", Construct: "checker.Check"},
+		{Name: "Compile passes the optimizer's error on unbound", File: "expr.go", Old: "return nil, fileError.Bind(tree.Source)", New: "return nil, fileError", Rule: "R13.5", Construct: "optimizer.Optimize"},
 		{Name: "conditional node loses its location", File: "parser/parser.go", Old: "\t\t\tExp2: expr2,\n\t\t}\n\t\tnode.SetLocation(token.Location)\n", New: "\t\t\tExp2: expr2,\n\t\t}\n\t\t_ = token\n", Rule: "R13.1", Construct: "ConditionalNode"},
 		{Name: "location table keyed by the operand position", File: "compiler/compiler.go", Old: "\tc.locations[current-1] = loc\n", New: "\tc.locations[current] = loc\n", Rule: "R13.6", Construct: "emit/location filed"},
 		{Name: "VM looks the location up with ip", File: "vm/vm.go", Old: "Location: program.Locations[vm.pp],", New: "Location: program.Locations[vm.ip],", Rule: "R13.6", Construct: "vm.(VM).Run"},
